@@ -61,6 +61,43 @@ def do_import(pid):
                        confirmed_rule="patch applies; unchanged tree + demo passes; patched tree passes the existing suite; patched tree + demo fails"),
                   open(os.path.join(dst, "meta.json"), "w"), indent=1)
 
+def do_run_scratch(names, scratch):
+    """Like do_run, but on a scratch clone of /repo (VERIF_REPO), so that /repo is never touched and
+    several runs can proceed in parallel."""
+    sd = os.path.join(V, "seeded")
+    names = names or sorted(d for d in os.listdir(sd) if os.path.isdir(os.path.join(sd, d)))
+    if not os.path.isdir(scratch):
+        rc, o = sh("git clone -q /repo %s" % scratch)
+        assert rc == 0, o
+    sh("git checkout -q -- . && git clean -fdq && git fetch -q origin && git reset -q --hard origin/main", scratch)
+    resf = os.path.join(sd, "RESULTS.json")
+    env = dict(ENV, VERIF_REPO=scratch)
+    for n in names:
+        d = os.path.join(sd, n)
+        meta = json.load(open(os.path.join(d, "meta.json")))
+        props = [meta["property"]] + meta.get("also_check", [])
+        rc, o = sh("git apply %s" % os.path.join(d, "patch.diff"), scratch)
+        if rc != 0:
+            print(n, "patch does not apply:", o[-200:]); continue
+        det = {}
+        try:
+            for p in props:
+                t0 = time.time()
+                pr = subprocess.run("python3 run/check.py %s --tier quick" % p, shell=True, cwd=V, env=env, stdout=subprocess.PIPE, stderr=subprocess.STDOUT, text=True, timeout=3000)
+                o = pr.stdout
+                ls = o.splitlines()
+                viol = [l for l in ls if l.startswith("VIOLATION")]
+                det[p] = dict(exit=pr.returncode, violations=len(viol), wall_s=round(time.time() - t0, 1),
+                              first=(ls[ls.index(viol[0]) + 1][:300] if viol and ls.index(viol[0]) + 1 < len(ls) else (ls[-1][:300] if ls else "")))
+                print(n, p, "exit", pr.returncode, "violations", len(viol), flush=True)
+        finally:
+            sh("git checkout -q -- . && git clean -fdq", scratch)
+        results = json.load(open(resf)) if os.path.exists(resf) else {}
+        results[n] = dict(status="detected" if any(x["exit"] == 1 for x in det.values()) else "MISSED", checks=det,
+                          repo_head=sh("git rev-parse --short HEAD", scratch)[1].strip(), on="scratch clone of /repo (VERIF_REPO)")
+        json.dump(results, open(resf, "w"), indent=1)
+
+
 def do_run(names):
     sd = os.path.join(V, "seeded")
     names = names or sorted(d for d in os.listdir(sd) if os.path.isdir(os.path.join(sd, d)))
@@ -99,3 +136,5 @@ if __name__ == "__main__":
             do_import(pid)
     elif sys.argv[1] == "run":
         do_run(sys.argv[2:])
+    elif sys.argv[1] == "runs":     # runs <scratch dir> [names...]
+        do_run_scratch(sys.argv[3:], sys.argv[2])
